@@ -113,9 +113,11 @@ package server
 //@   ensures [spec] result <==> ((pos.Line + 1 > rng.Start.Line || (pos.Line + 1 == rng.Start.Line && pos.Character + 1 >= rng.Start.Column)) && (pos.Line + 1 < rng.End.Line || (pos.Line + 1 == rng.End.Line && pos.Character + 1 <= rng.End.Column)) && pos.Line + 1 >= rng.Start.Line && pos.Line + 1 <= rng.End.Line)
 
 //@ func estimatePayeeRange
-//@   props C08
+//@   props C08 C09
 //@   requires tx != nil
 //@   ensures [shape] result.Start.Line == result.End.Line && result.Start.Column <= result.End.Column
+//@   ensures [C08,C09:length_utf16] result.End.Column - result.Start.Column == u16(payee, len(payee))
+//@   ensures [C08,C09:starts_at_description] tx.DescriptionPos.Line == tx.Date.Range.Start.Line && tx.DescriptionPos.Column > 0 ==> result.Start.Column == tx.DescriptionPos.Column && result.Start.Line == tx.DescriptionPos.Line
 
 //@ func isValidTagName
 //@   props C06 C17
